@@ -51,6 +51,10 @@ func errorPaylad(err error) []byte {
 
 // SendError send a error message in response to msg.
 func (c *channel) SendError(msg *net.Message, err error) error {
+	if msg.Header.Type == net.Post {
+		// one-way messages are never answered.
+		return nil
+	}
 	hdr := net.NewHeader(net.Error, msg.Header.Service, msg.Header.Object,
 		msg.Header.Action, msg.Header.ID)
 	mError := net.NewMessage(hdr, errorPaylad(err))
@@ -109,6 +113,10 @@ func (c *tracedChannel) Send(msg *net.Message) error {
 }
 
 func (c *tracedChannel) SendError(msg *net.Message, err error) error {
+	if msg.Header.Type == net.Post {
+		// one-way messages are never answered.
+		return nil
+	}
 	hdr := net.NewHeader(net.Error, msg.Header.Service, msg.Header.Object,
 		msg.Header.Action, msg.Header.ID)
 	mError := net.NewMessage(hdr, errorPaylad(err))
@@ -135,6 +143,10 @@ func (c *statChannel) Send(msg *net.Message) error {
 }
 
 func (c *statChannel) SendError(msg *net.Message, err error) error {
+	if msg.Header.Type == net.Post {
+		// one-way messages are never answered.
+		return nil
+	}
 	hdr := net.NewHeader(net.Error, msg.Header.Service, msg.Header.Object,
 		msg.Header.Action, msg.Header.ID)
 	mError := net.NewMessage(hdr, errorPaylad(err))
